@@ -112,32 +112,40 @@ class Ctx:
         return solve.quick_sat(self.pc + [extra], self.cfg.feas_timeout_ms)
 
     def decide(self, cond, tag: str = "") -> bool:
+        """Branch on a symbolic condition.  EVERY call with a z3 condition consumes one decision slot (also when the
+        condition happens to simplify to a constant: z3's simplifier is history dependent, and the slot sequence must be
+        identical when a prefix is replayed)."""
         if isinstance(cond, bool):
             return cond
         cond = z3.simplify(cond)
-        if z3.is_true(cond):
-            return True
-        if z3.is_false(cond):
-            return False
+        self.decision_tags.append(("d", tag, str(cond)[:80]))
         if self.pos < len(self.decisions):
             v = self.decisions[self.pos]
             if not isinstance(v, bool):
-                raise EngineError(f"decision replay mismatch at {self.pos}: expected bool, got {v!r}")
+                raise EngineError(f"decision replay mismatch at {self.pos}: expected bool, got {v!r}; tags so far: {self.decision_tags[-6:]}")
         else:
-            t = self._quick(cond)
-            f = self._quick(z3.Not(cond))
-            if t != "unsat" and f != "unsat":
+            if z3.is_true(cond):
                 v = True
-                self.forks.append(self.decisions + [False])
-            elif t != "unsat":
-                v = True
-            elif f != "unsat":
+            elif z3.is_false(cond):
                 v = False
             else:
-                raise PathEnd()
+                t = self._quick(cond)
+                f = self._quick(z3.Not(cond)) if t != "unsat" else "sat"
+                if t != "unsat" and f != "unsat":
+                    v = True
+                    self.forks.append(self.decisions + [False])
+                elif t != "unsat":
+                    v = True
+                elif f != "unsat":
+                    v = False
+                else:
+                    raise PathEnd()
             self.decisions.append(v)
         self.pos += 1
-        self.pc.append(cond if v else z3.Not(cond))
+        if not (z3.is_true(cond) or z3.is_false(cond)):
+            self.pc.append(cond if v else z3.Not(cond))
+        elif z3.is_true(cond) != v:
+            raise PathEnd()   # replayed decision contradicts a condition that is now constant: infeasible
         return v
 
     def choose(self, n: int, tag: str = "") -> int:
@@ -146,10 +154,11 @@ class Ctx:
             raise PathEnd()
         if n == 1:
             return 0
+        self.decision_tags.append(("c", tag, n))
         if self.pos < len(self.decisions):
             v = self.decisions[self.pos]
             if isinstance(v, bool) or not isinstance(v, int):
-                raise EngineError(f"decision replay mismatch at {self.pos}: expected choice, got {v!r}")
+                raise EngineError(f"decision replay mismatch at {self.pos}: expected choice, got {v!r}; tags so far: {self.decision_tags[-6:]}")
         else:
             v = 0
             for k in range(1, n):
